@@ -1,13 +1,63 @@
 """C09 — the stored chain is hash-linked and every index agrees with the executed blocks."""
-from ..runner import EngineSpec, PropSpec
-from .. import gen_store
+import re
+
+from ..core import History
+from ..runner import EngineSpec, PropSpec, Hit
+from .. import gen_store, gen_exec, mon_exec
 from . import register
+
+
+def gen_reorg(rng, n, tier):
+    """the executor's own rollback / re-execute path: consensus delivers another block for a height the node has already
+    executed (1 to 3 below the head, or the head itself); the node rolls its ledger back and executes the new block in place;
+    ordinary interchain traffic before, in the replacing blocks and after"""
+    import random as _r
+    hs = []
+    for _ in range(n):
+        r = _r.Random(rng.getrandbits(64))
+        g = gen_exec.ExecGen(r, focus="single", audit=False, price=1)
+        for _ in range(r.randint(3, 6)):
+            g.block()
+            g.observe()
+        for _ in range(r.randint(1, 3)):
+            depth = r.choice([0, 0, 1, 1, 2, 3])
+            h = max(7, g.height - depth)
+            g.height = h - 1
+            g.block()
+            g.ops[-1] = f"reorg {h} " + g.ops[-1][len("block"):].strip()
+            g.observe()
+            g.tags.add(f"reorg-depth:{depth}")
+            for _ in range(r.randint(0, 3)):
+                g.block()
+                g.observe()
+        hs.append(History(g.ops, tags=g.tags | {"reorg"}))
+    return hs
+
+
+def mon_reorg(h, obs):
+    """the hash link and the chain meta, read back from the store after every block (the harness compares the parent hash of
+    block h with the hash of the stored block h-1, and the chain meta with block h)"""
+    hits = []
+    for op, o in zip(h.ops, obs):
+        if op.split()[0] in ("block", "reorg"):
+            m = re.search(r" plink=(\S+)", o)
+            if m and m.group(1) != "ok":
+                kind = "reorg" if op.startswith("reorg") else "block"
+                hits.append(Hit(f"C09/hash-link-broken/{kind}/{m.group(1)}", f"after `{op[:60]}`: the stored block's parent hash is not the hash of the stored block below it, or the chain meta does not name it ({m.group(1)})", detail=op))
+                break
+    return hits
+
+
+def tags_reorg(h, obs):
+    return {"block"}
 
 register(PropSpec(
     "C09",
-    engines=[EngineSpec("store", gen_store.gen, gen_store.mon_c09, gen_store.tags_store, quick_n=200, thorough_n=5000, canon=gen_store.canon_store)],
+    engines=[EngineSpec("store", gen_store.gen, gen_store.mon_c09, gen_store.tags_store, quick_n=200, thorough_n=5000, canon=gen_store.canon_store),
+             EngineSpec("exec", gen_reorg, mon_reorg, tags_reorg, quick_n=60, thorough_n=1500, mask=mon_exec.mask_unmodelled)],
     rule="store engine: real ledger.New / PersistBlockData / Rollback on LevelDB + blockfile; block sequences with empty blocks, up to 6 transactions, "
          "interchain-heavy metadata, rollbacks to head-1/-2/random/0/above head, reopen; after rollbacks and at the end every getter (GetBlock both modes, "
          "GetBlockByHash, GetBlockHash, GetTransaction, GetTransactionMeta, GetReceipt, GetTransactionCount, GetInterchainMeta, GetChainMeta) is queried for "
-         "every known height, hash and transaction and compared with the executed chain; non-trivial = rollback/reopen/interchain tags; distinct = distinct op list",
+         "every known height, hash and transaction and compared with the executed chain; exec engine: the executor's own rollback path "
+         "(consensus replaces a block 0-3 below the head: rollbackBlocks + re-execution), the hash link and the chain meta read back after every block; non-trivial = rollback/reopen/interchain tags; distinct = distinct op list",
 ))
